@@ -135,6 +135,49 @@ def resolve_shard(task):
     return part
 
 
+# ------------------------------------------------------------------------- one program, many evaluations
+ALL_DECLARED = [lv + n for lv in LEVELS for n in NAMES]
+
+
+def reuse_shard(task):
+    """Every configuration of the shard is evaluated, one after the other, on ONE long-lived program per (package,
+    reference) whose environment declares all nine names, and on a fresh program built for this evaluation alone: what
+    a name resolves to may not depend on what the same program was asked before (a binding of an earlier evaluate()
+    surviving in a nested namespace of the declarations).  A differential: no reference value is needed, so declared
+    but unbound names -- on which the statement is silent -- are covered too."""
+    rk, lo, hi, tier = task
+    import celpy.celtypes as ct
+    part = runner.Part()
+    cfgs = list(itertools.islice(configs(tier), lo, hi))
+    ann = {k: ct.StringType for k in ALL_DECLARED}
+    shared = {}
+    hist = []
+    n = 0
+    for cfg in cfgs:
+        bind = build(cfg)
+        celbind = {k: to_cel(v) for k, v in bind.items()}
+        hist.append(bind)
+        for package in (None, "p"):
+            for ref in REFS:
+                if (package, ref) not in shared:
+                    shared[package, ref] = celrun.Prog(rk, ref, package=package, annotations=dict(ann))
+                o_shared = shared[package, ref].eval(dict(celbind))
+                o_fresh = celrun.Prog(rk, ref, package=package, annotations=dict(ann)).eval(dict(celbind))
+                n += 1
+                part.case()
+                part.outcome("reuse:" + outcome.label(o_fresh))
+                if o_shared[:3] != o_fresh[:3]:
+                    prev = hist[-2] if len(hist) > 1 else {}
+                    lost = sorted(set(prev) - set(bind))
+                    part.violation("history-dependent-resolution", f"{rk}:reused-program:{outcome.label(o_fresh)}->{outcome.label(o_shared)}:{'names-bound-before-now-unbound' if lost else 'same-or-more-names'}",
+                                   {"runner": rk, "reuse": True, "package": package, "ref": ref, "history": hist[-6:], "bindings": bind},
+                                   f"runner {rk}: {ref} (package {package!r}, all nine names declared) with bindings {bind}: a fresh program gives {outcome.short(o_fresh)}, "
+                                   f"the program evaluated before with {prev} gives {outcome.short(o_shared)}")
+    part.space(f"resolution:reused-program:{rk}", 0, len(cfgs))
+    part.extra["resolution_evaluations"] += n
+    return part
+
+
 # ----------------------------------------------------------------------------------------- macros
 OUTER = {"x": 1000, "y": 2000, "z": 3000}
 LISTS = {1: [1, 2], 2: [10, 20], 3: [100, 200]}
@@ -326,6 +369,8 @@ def run(ctx):
         for style in ("bindings", "bindings-reversed", "shadow"):
             ctx.run_shards(resolve_shard, [(rk, lo, hi, ctx.tier, style) for lo, hi in runner.shards(ncfg, 32)])
             ctx.part.spaces[f"resolution:{style}:{rk}"]["cardinality"] = ncfg
+        ctx.run_shards(reuse_shard, [(rk, lo, hi, ctx.tier) for lo, hi in runner.shards(ncfg, 32)])
+        ctx.part.spaces[f"resolution:reused-program:{rk}"]["cardinality"] = ncfg
         ctx.run_shards(macro_shard, [(rk, lo, hi, ctx.tier) for lo, hi in runner.shards(len(mp), 16)])
         ctx.part.spaces[f"macro-nestings:{rk}"]["cardinality"] = len(mp)
         ctx.run_shards(null_shard, [(rk,)])
@@ -333,13 +378,25 @@ def run(ctx):
     ctx.part.sample({"bindings": build((1, 2, 0, 0, 1, 0, 0, 0, 0)), "package": "p", "references": REFS})
     ctx.part.sample({"macro_programs": [mp[i][0] for i in (0, len(mp) // 2, len(mp) - 1)], "outer_bindings": OUTER})
     ctx.rule = ("(1) every assignment of {absent, scalar, map with the remaining fields} to {a, a.b, a.b.c} x {root, p" + (", p.q} (all 3^9)" if ctx.thorough else "} (3^6) plus every p.q configuration with <= 3 bound names") +
-                " x package {none, p, p.q} x 5 references, as plain bindings (mapping listed shortest-name-first and in the reverse order) and as bindings shadowing declarations of another type; (2) every macro nesting of depth <= 3 with variables from {x, y} "
+                " x package {none, p, p.q} x 5 references, as plain bindings (mapping listed shortest-name-first and in the reverse order) and as bindings shadowing declarations of another type, and (differential, no reference) on one long-lived program with all nine names declared that is evaluated under every configuration of its shard in turn, against a fresh program per evaluation; (2) every macro nesting of depth <= 3 with variables from {x, y} "
                 "(colliding and distinct) and bodies over {x, y, z}, also using the variable name after the macro; (3) a name bound to null (outer binding or iteration variable), declared as one of 3 types or undeclared, referenced at macro depth 0..3; (4) a name that is a macro variable / a bound map while a longer dotted name with the same head is bound / declared; cases the resolution model leaves UNSPEC (reference naming a namespace; level mentioning `a` only through non-prefix names) are counted, not compared")
     ctx.assumptions = ["dotted paths of at most three components over one root name; integer leaves", "declared-but-unbound names are not judged (the statement does not say what they denote)"]
 
 
 def replay(w):
     wit = w["witness"]
+    if wit.get("reuse"):
+        import celpy.celtypes as ct
+        ann = {k: ct.StringType for k in ALL_DECLARED}
+        prog = celrun.Prog(wit["runner"], wit["ref"], package=wit["package"], annotations=dict(ann))
+        o = None
+        for b in wit["history"]:
+            o = prog.eval({k: to_cel(v) for k, v in b.items()})
+        fresh = celrun.Prog(wit["runner"], wit["ref"], package=wit["package"], annotations=dict(ann)).eval({k: to_cel(v) for k, v in wit["bindings"].items()})
+        print("history", wit["history"], "->", outcome.short(o), "; fresh program:", outcome.short(fresh))
+        bad = o[:3] != fresh[:3]
+        print("REPRODUCED" if bad else "not reproduced")
+        return 1 if bad else 0
     if "ref" in wit:
         import celpy.celtypes as ct
         bind = wit["bindings"]
